@@ -552,3 +552,30 @@ def visit_category_area(chk, db, prefixes, rule="VISITCAT"):
             if not ok:
                 chk.violation(rule, construct, "category-lost", "%s: %s" % (astx.loc(f, g), msg), {"where": astx.loc(f)})
     return n
+
+
+def char_cast_control(chk, D):
+    """the library may have no narrowing conversion at all (the `conditional_t` form): the rule then rests on its controls"""
+    import os
+    fx_path = os.path.join(D.VERIF, "fixtures", "extra12_pos.hpp")
+    fx = D.load_source('#include "%s"\n' % fx_path, root=os.path.dirname(fx_path) + "/", tag="fixture-extra12")
+
+    class _Probe:
+        def __init__(self):
+            self.res = []
+
+        def instance(self, *a, **k):
+            pass
+
+        def obligation(self, rule, label, ok, **k):
+            self.res.append((label, ok))
+
+        def violation(self, *a, **k):
+            pass
+    pr = _Probe()
+    files = tuple(set(g["file"] for g in fx.funcs))
+    char_cast_area(pr, fx, files)
+    if not any("traits_bad" in l and ok is False for l, ok in pr.res):
+        chk.analysis_broken("CHARCAST: the positive control fixture::traits_bad::eq was not reported")
+    if not any("traits_good" in l and ok is True for l, ok in pr.res) or any("traits_good" in l and ok is False for l, ok in pr.res):
+        chk.analysis_broken("CHARCAST: the negative control fixture::traits_good::lt was not proved")
